@@ -153,14 +153,15 @@ impl syn::parse::Parse for Arms {
             if (input.peek(syn::Ident) && input.peek2(syn::Token![=>])) || (input.peek(syn::Token![default]) && input.peek2(syn::Token![=>])) {
                 let kw: String = if input.peek(syn::Token![default]) { input.parse::<syn::Token![default]>()?; "default".into() } else { input.parse::<syn::Ident>()?.to_string() };
                 input.parse::<syn::Token![=>]>()?;
-                let body: Expr = input.parse()?;
+                // a block body ends the arm (no comma needed): parse it as a block, not as the head of a call `{..}(..)`
+                let body: Expr = if input.peek(syn::token::Brace) { Expr::Block(input.parse::<syn::ExprBlock>()?) } else { input.parse()? };
                 v.push(Arm { pat: None, fut: None, body, kw: Some(kw) });
             } else {
                 let pat = syn::Pat::parse_single(input)?;
                 input.parse::<syn::Token![=]>()?;
                 let fut: Expr = input.parse()?;
                 input.parse::<syn::Token![=>]>()?;
-                let body: Expr = input.parse()?;
+                let body: Expr = if input.peek(syn::token::Brace) { Expr::Block(input.parse::<syn::ExprBlock>()?) } else { input.parse()? };
                 v.push(Arm { pat: Some(pat), fut: Some(fut), body, kw: None });
             }
             let _ = input.parse::<Option<syn::Token![,]>>()?;
@@ -368,6 +369,7 @@ pub struct Rw<'c> {
     pub typed_caps: BTreeSet<String>,     // "<ctor> <capture>" pairs whose type the spec gives (`@captype <ctor> <capture>`)
     pub into_params: BTreeSet<String>,    // parameters declared `impl Into<T>` (rule I1): `p.into()` is `p`
     pub local_types: std::collections::BTreeMap<String, String>,   // declared types of parameters and of locals that are clones of them
+    pub ctor_param_names: std::collections::BTreeMap<String, Vec<String>>, // `@sig X__new` sections that NAME their parameters: the order the constructor takes its captures in
 }
 /// a closure literal or async block that is used as a value (rules L1 / A3)
 #[derive(Clone)]
@@ -414,7 +416,7 @@ fn has_control_escape(e: &Expr) -> bool {
 }
 
 impl<'c> Rw<'c> {
-    pub fn new(cx: &'c mut Ctx, lifted: bool, binders: BTreeSet<String>, fn_name: String) -> Self { Rw { cx, lifted, binders, lift_prefix: fn_name.replace("::", "__").replace('@', "_"), fn_name, loops: 0, g6_sites: 0, self_to_this: false, closures: 0, lifted_closures: vec![], gen_idents: vec![], typed_ctors: BTreeSet::new(), typed_caps: BTreeSet::new(), into_params: BTreeSet::new(), local_types: Default::default() } }
+    pub fn new(cx: &'c mut Ctx, lifted: bool, binders: BTreeSet<String>, fn_name: String) -> Self { Rw { cx, lifted, binders, lift_prefix: fn_name.replace("::", "__").replace('@', "_"), fn_name, loops: 0, g6_sites: 0, self_to_this: false, closures: 0, lifted_closures: vec![], gen_idents: vec![], typed_ctors: BTreeSet::new(), typed_caps: BTreeSet::new(), into_params: BTreeSet::new(), local_types: Default::default(), ctor_param_names: Default::default() } }
 
     fn select_to_match(&mut self, m: &syn::Macro) -> Option<Expr> {
         let arms: Arms = match syn::parse2(m.tokens.clone()) { Ok(a) => a, Err(e) => { self.cx.err(format!("outside dialect: select! arms in {}: {}", self.fn_name, e)); return None; } };
@@ -732,7 +734,7 @@ impl<'c> VisitMut for Rw<'c> {
         loop {
             match e {
                 Expr::Call(c) if c.args.len() == 1 && nospace(&c.func.to_token_stream().to_string()) == "Box::pin" => { let inner = c.args[0].clone(); self.cx.fire("D4"); *e = inner; }
-                Expr::MethodCall(m) if m.method == "fuse" && m.args.is_empty() => { let inner = (*m.receiver).clone(); self.cx.fire("D4"); *e = inner; }
+                Expr::MethodCall(m) if (m.method == "fuse" || m.method == "boxed" || m.method == "boxed_local") && m.args.is_empty() => { let inner = (*m.receiver).clone(); self.cx.fire("D4"); *e = inner; }
                 _ => break,
             }
         }
@@ -862,6 +864,13 @@ impl<'c> VisitMut for Rw<'c> {
             let ctor = ident(&format!("{}__new", name));
             // when places of `self` are captured disjointly, a bare `self` seen in macro tokens is not a capture of its own
             let caps: Vec<String> = if caps.iter().any(|c| c.starts_with("self.")) { caps.into_iter().filter(|c| c != "self").collect() } else { caps };
+            // L1o: a constructor whose contract signature names its parameters takes the captures in THAT order (the order in which the
+            // body happens to mention them first is incidental)
+            let caps: Vec<String> = match self.ctor_param_names.get(&format!("{}__new", name)) {
+                Some(order) => { let norm = |c: &String| if c == "self" { "this".to_string() } else { c.replace("self.", "self_") };
+                    if caps.iter().all(|c| order.contains(&norm(c))) { let mut v = caps.clone(); v.sort_by_key(|c| order.iter().position(|o| *o == norm(c)).unwrap_or(usize::MAX)); if v != caps { self.cx.fire("L1o"); } v } else { caps } }
+                None => caps,
+            };
             let args: Vec<Expr> = caps.iter().map(|c| {
                 let place: Expr = if let Some(f) = c.strip_prefix("self.") { let fi = ident(f); if self.self_to_this { parse_quote!(this.#fi) } else { parse_quote!(self.#fi) } }
                                   else { let id = ident(if self.self_to_this && c == "self" { "this" } else { c }); parse_quote!(#id) };
